@@ -105,7 +105,8 @@ def _build(inp):
     import vermouth.forcefield
     system = vermouth.system.System(force_field=vermouth.forcefield.ForceField(name='ff'))
     mol = vermouth.molecule.Molecule(force_field=system.force_field, nrexcl=1)
-    mol.meta['moltype'] = 'molecule_0'
+    # the Go pipeline names the molecule itself (prepare_run); a name left on the molecule by an earlier stage must not survive
+    mol.meta['moltype'] = 'stale_9' if inp.get('stale_meta') else 'molecule_0'
     for a in inp['atoms']:
         attrs = dict(atomname=a['name'], resid=a['resid'], _old_resid=a['old_resid'], resname='R%d' % a['resname'],
                      chain='ABCDEFGH'[a['chain']], position=np.array(a['xyz'], dtype=float),
@@ -115,6 +116,10 @@ def _build(inp):
         mol.add_node(a['key'], **attrs)
     mol.add_edges_from(inp['edges'])
     system.add_molecule(mol)
+    if inp.get('stale_meta'):
+        from vermouth.rcsu.go_pipeline import GoPipeline
+        GoPipeline.prepare_run(system, moltype='molecule_0')
+        mol = system.molecules[0]
     return system, mol
 
 
@@ -250,8 +255,9 @@ def generate(rng, tier):  # noqa: F811  -- every input is emitted twice: once as
     base = _orig_generate(rng, tier)
     out = []
     for c in base:
-        out.append(dict(c, _which=0))
-        out.append(dict(c, _which=1))
+        stale = rng.random() < 0.3      # the molecule arrives with a name from an earlier stage; the pipeline renames it
+        out.append(dict(c, _which=0, stale_meta=stale))
+        out.append(dict(c, _which=1, stale_meta=stale))
     return out
 
 
